@@ -89,5 +89,81 @@ def setup_jobs(tier):
     return out
 
 
+# ------------------------------------------------------------------------------------------------ layer (b)
+PART_QUICK = [(0, 0, 0), (1, 0, 0), (63, 0, 0), (64, 0, 0), (65, 0, 0), (128, 0, 0), (131, 0, 0), (0, 131, 0), (130, 0, 1),
+              (10, 70, 51), (10, 20, 34), (10, 20, 40), (10, 20, 98), (10, 20, 101), (64, 1, 66), (63, 1, 64), (1, 63, 67),
+              (7, 57, 67), (65, 65, 1), (128, 3, 0), (3, 128, 0), (5, 123, 3), (64, 64, 3), (33, 31, 64)]
+PART_SIZES = [0, 1, 3, 8, 31, 32, 33, 56, 61, 63, 64, 65, 67, 70, 120, 127, 128, 129, 131]
+ALIGN4 = [(0, 0), (1, 3), (4, 4), (8, 5)]     # (OFFS, OFFD): aligned8 / unaligned / aligned4 / mixed
+SRCN = {0: "separate", 1: "in place", 2: "NULL"}
+
+
+def stream_job(api, lens, offs, offd, sm, ks=32, ctrnull=0, ivnull=0, rounds=20, tag=""):
+    l1, l2, l3 = lens
+    total = l1 + l2 + l3
+    if sm == 1:
+        offs = offd
+    if sm == 2:
+        offs = 0
+    apin = {0: "blocks", 1: "str", 2: "chacha", 3: "xchacha", 4: "xstr"}[api]
+    nm = "stream-%s-%d_%d_%d-s%d-o%d%d-k%d%s%s%s" % (apin, l1, l2, l3, sm, offs, offd, ks, "-c0" if ctrnull else "",
+                                                      "-i0" if ivnull else "", tag)
+    defs = {"API": api, "L1": l1, "L2": l2, "L3": l3, "OFFS": offs, "OFFD": offd, "SRCMODE": sm, "KEYSIZE": ks,
+            "CTRNULL": ctrnull, "IVNULL": ivnull, "ROUNDS": rounds}
+    base = {"src": "stream.c", "defs": defs, "unwind": max(70, total + 6),
+            "shape": "%s chunk lengths %d+%d+%d src=%s offsets src+%d dst+%d key_size=%d counter=%s iv=%s rounds=%d; key, nonce, "
+                     "initial counter (all 2^64), source, old dst and the abstract key stream symbolic" % (
+                         {0: "chacha_blocks_transform", 1: "chacha_str_init + 3 x chacha_str_data_crypt", 2: "chacha()",
+                          3: "xchacha()", 4: "xchacha_str_init + 3 x chacha_str_data_crypt"}[api], l1, l2, l3, SRCN[sm], offs, offd,
+                         ks, "NULL" if ctrnull else "given", "NULL" if ivnull else "given", rounds)}
+    out = [dict(base, name=nm, solver=SOLVER, prop_exclude="KS:",
+                desc="dst[i] == src[i] ^ KS(c0+i/64)[i%64] for every interpretation of the block function; kernel variants only "
+                     "called with the alignment they need; key/nonce words constant over the calls and == spec set-up; counter, "
+                     "ks_len bookkeeping; untouched bytes around dst; memory safety")]
+    if api in (3, 4) and total:
+        out.append(dict(base, name=nm + "-ks", prop_include="KS:", **CVC5BV,
+                        desc="sub-key words in the state of the first block == reference HChaCha(key, iv[0..15]) (RFC-order)"))
+    return out
+
+
+def stream_jobs(tier):
+    out = []
+    if tier == "quick":
+        parts = PART_QUICK
+    else:
+        parts = sorted(set(PART_QUICK) | {(a, b, c) for a in PART_SIZES for b in PART_SIZES for c in PART_SIZES if a + b + c <= 131})
+    # chacha_str: every partition x source mode, alignment pairs rotate (thorough: two rotations)
+    for n, lens in enumerate(parts):
+        for sm in (0, 1, 2):
+            for rot in ((0,) if tier == "quick" else (0, 2)):
+                offs, offd = ALIGN4[(n + sm + rot) % 4]
+                out += stream_job(1, lens, offs, offd, sm, ks=(16 if n % 5 == 0 else 32))
+    # chacha_blocks_transform: dispatch on alignment
+    for nblk in ((2,) if tier == "quick" else (0, 1, 2, 3)):
+        for (offs, offd) in [(0, 0), (8, 8), (4, 0), (0, 4), (4, 4), (12, 4), (1, 0), (0, 2), (3, 3), (8, 7), (5, 16)]:
+            for sm in (0, 1, 2):
+                out += stream_job(0, (64 * nblk, 0, 0), offs, offd, sm)
+    # one-shot chacha()/xchacha(), xchacha stream
+    oneshot = [(131, 32, 0, 0, 20), (70, 16, 1, 1, 8), (0, 32, 0, 0, 20), (64, 256, 0, 1, 12), (1, 128, 1, 0, 20), (129, 32, 1, 0, 12)]
+    if tier != "quick":
+        oneshot += [(l, k, c, i, r) for l in (1, 63, 64, 65, 128, 131) for k in (16, 32) for c in (0, 1) for i in (0, 1) for r in (8, 20)]
+    for n, (l, k, c, i, r) in enumerate(oneshot):
+        for api in (2, 3):
+            for sm in ((n % 3,) if tier == "quick" else (0, 1, 2)):
+                offs, offd = ALIGN4[(n + sm) % 4]
+                out += stream_job(api, (l, 0, 0), offs, offd, sm, ks=k, ctrnull=c, ivnull=i, rounds=r)
+    xparts = [(10, 70, 51), (64, 1, 66), (0, 0, 0), (3, 128, 0)] if tier == "quick" else PART_QUICK
+    for n, lens in enumerate(xparts):
+        for sm in ((n % 3,) if tier == "quick" else (0, 1, 2)):
+            offs, offd = ALIGN4[(n + sm + 1) % 4]
+            out += stream_job(4, lens, offs, offd, sm, ks=(16 if n % 2 else 32), ivnull=(1 if n % 4 == 3 else 0), rounds=(8, 12, 20)[n % 3])
+    seen, uniq = set(), []
+    for j in out:
+        if j["name"] not in seen:
+            seen.add(j["name"])
+            uniq.append(j)
+    return uniq
+
+
 def jobs(tier):
-    return kern_jobs(tier) + hchacha_jobs(tier) + setup_jobs(tier)
+    return kern_jobs(tier) + hchacha_jobs(tier) + setup_jobs(tier) + stream_jobs(tier)
